@@ -48,8 +48,10 @@ func appendStdFloat32(b []byte, f float32) []byte {
 }
 
 type sweepState struct {
-	buf  []byte
-	want []byte
+	buf         []byte
+	want        []byte
+	known       int64 // members excused by a listed finding (counted in the report)
+	knownSample string
 }
 
 // sweepOne checks one member of a sweep domain; "" = holds.
@@ -72,6 +74,14 @@ func (s *sweepState) sweepOne(kind string, bits uint32) string {
 		var g float32
 		if err := sonic.UnmarshalString(string(s.want), &g); err != nil || math.Float32bits(g) != bits {
 			if bits == 0x80000000 && math.Float32bits(g) == 0 && knownListed("C19-minus-zero-integer-literal") {
+				return ""
+			}
+			// listed finding: float32 destinations are converted through float64 (two roundings)
+			if f64, e64 := strconv.ParseFloat(string(s.want), 64); err == nil && e64 == nil && math.Float32bits(float32(f64)) == math.Float32bits(g) && knownListed("C19-float32-double-rounding") {
+				s.known++
+				if s.knownSample == "" {
+					s.knownSample = fmt.Sprintf("%s -> %#08x, exact %#08x", s.want, math.Float32bits(g), bits)
+				}
 				return ""
 			}
 			return fmt.Sprintf("Unmarshal(%s, &float32) = bits %#08x (err %v), want %#08x", s.want, math.Float32bits(g), err, bits)
@@ -128,6 +138,8 @@ type sweepReport struct {
 	Blocks     int    `json:"blocks"`
 	Complete   bool   `json:"complete"` // this shard did every block assigned to it in an exhaustive (thorough) run
 	Sample     string `json:"sample"`
+	Known      int64  `json:"known_finding_hits"` // members whose mismatch is the listed float32 double-rounding finding
+	KnownEx    string `json:"known_finding_example,omitempty"`
 }
 
 func runC19Sweep(t *testing.T) {
@@ -169,6 +181,8 @@ func runC19Sweep(t *testing.T) {
 				rep.Sample = fmt.Sprintf("%s %#08x..%#08x", kind, base, base|0xffff)
 			}
 		}
+		rep.Known, rep.KnownEx = st.known, st.knownSample
+		st.known, st.knownSample = 0, ""
 		reports = append(reports, rep)
 	}
 	b, _ := json.Marshal(reports)
